@@ -23,8 +23,18 @@ def getKey (n : Name) : Key := (n.reverse.map (fun l => UInt8.ofNat l.length :: 
 
 inductive Kind where
   | auth
-  | cached (expireAt : Nat)
+  | cached (expireAt refreshAt : Nat)
 deriving DecidableEq, Repr
+
+/-- `ExpirationInfo::new`: seconds after insertion at which a refresh becomes due — at expiry for
+TTL 0, at half the TTL below one minute, else at `ttl / 10 * 8` (80 %, on whole tens of seconds) -/
+def refreshOffsetSecs (ttl : Nat) : Nat :=
+  if ttl = 0 then 0 else if ttl < 60 then ttl / 2 else ttl / 10 * 8
+
+/-- `ResourceRecordType::should_refresh` at time `now` -/
+def Kind.shouldRefresh : Kind → Nat → Bool
+  | .auth, _ => false
+  | .cached _ r, now => r < now
 
 /-- `PartialEq for ResourceRecord`: TTL and cache-flush bit are ignored -/
 def rrEq (a b : RR) : Bool := a.name == b.name && a.cls == b.cls && a.rdata == b.rdata
@@ -66,7 +76,7 @@ def Store.addCached (s : Store) (r : RR) (now : Nat) : Store :=
   let b := (s.bucket k).getD []
   match b.get r with
   | some .auth => s
-  | _ => s.setBucket k (b.insert r (.cached (now + 1000 * ttl)))
+  | _ => s.setBucket k (b.insert r (.cached (now + 1000 * ttl) (now + 1000 * refreshOffsetSecs ttl)))
 
 /-- `remove_resource_record` -/
 def Store.remove (s : Store) (r : RR) : Store :=
@@ -77,6 +87,26 @@ def Store.remove (s : Store) (r : RR) : Store :=
 
 /-- `clear` -/
 def Store.clear (_ : Store) : Store := Store.empty
+
+/-- the refresh time of an entry for which a refresh is due at `now` -/
+def dueRefresh (now : Nat) (e : RR × Kind) : Option Nat :=
+  match e.2 with
+  | .auth => none
+  | .cached _ r => if Kind.shouldRefresh e.2 now then some r else none
+
+/-- the refresh times of all entries (of all keys) for which a refresh is due at `now` -/
+def Store.dueRefreshes (s : Store) (now : Nat) : List Nat :=
+  s.entries.flatMap (fun e => e.2.filterMap (dueRefresh now))
+
+/-- `Iterator::min_by(|a, b| a.cmp(b))` -/
+def minOpt (l : List Nat) : Option Nat :=
+  l.foldl (fun acc x => match acc with
+    | none => some x
+    | some m => some (if x < m then x else m)) none
+
+/-- `get_next_refresh` at time `now`: the earliest refresh time among the cached entries, of all
+names, whose refresh time has passed; expired entries are not excluded -/
+def Store.nextRefresh (s : Store) (now : Nat) : Option Nat := minOpt (s.dueRefreshes now)
 
 /-- `DomainResourceFilter` -/
 structure Filter where
@@ -93,7 +123,7 @@ def Filter.all : Filter := ⟨true, true, true⟩
 def Filter.matches (f : Filter) (k : Kind) (now : Nat) : Bool :=
   match k with
   | .auth => f.authoritative
-  | .cached e => f.cached && e > now
+  | .cached e _ => f.cached && e > now
 
 def nibbles (k : Key) : List Nat := k.flatMap (fun b => [b.toNat / 16, b.toNat % 16])
 
